@@ -105,7 +105,7 @@ if "benign" in cats:
             return True
         jobs.append(("benign/" + bv["id"], f, bv["properties"], "silent", None))
 if "benignsets" in cats:
-    for d in sorted(glob.glob(V + "/benign/C*")):
+    for d in sorted(glob.glob(V + "/benign/" + os.environ.get("REGRESS_BENIGN_GLOB", "C*"))):
         pid = os.path.basename(d)[:3]
         if only and pid not in only:
             continue
